@@ -582,6 +582,25 @@ func runDecisionRows(c *core.Ctx, e *Env, pkgPath, defaultType string, rows []dt
 				}
 			}
 		}
+		if row.occ {
+			// number atoms by their occurrence among all conditions of the function, so that a name means the same program
+			// point in every row of this function
+			for _, b := range bodiesOf(fn) {
+				g := graphOfBody(e, fn.Pkg, fn, b)
+				for _, blk := range g.CFG.Blocks {
+					if cd, tag := g.Cond(blk); cd != nil {
+						if tag != nil {
+							_, _ = ev.evalInt(tag, fr, nil)
+							_, _ = ev.evalInt(cd, fr, nil)
+						} else {
+							_, _ = ev.evalBool(cd, fr, nil)
+						}
+					}
+				}
+			}
+			ev.intTerms = map[string]types.Type{}
+			ev.boolAtoms = map[string]bool{}
+		}
 		collect(nil)
 		// local variables / parameters of the function (candidates for renaming)
 		localNames := map[string]bool{}
